@@ -19,6 +19,7 @@
 
    Definitions only (no proofs): this file must extract even if a proof breaks. *)
 From Coq Require Import ZArith List Bool.
+From VV Require Import Serial.SerialTags Gen.SerialOrder.
 Import ListNotations.
 Local Open Scope Z_scope.
 
@@ -90,6 +91,9 @@ Definition read_u16 := read_int true 0 u16_max.
 Definition read_u32 := read_int true 0 u32_max.
 Definition read_u64 := read_int true 0 u64_max.
 Definition read_i32 := read_int false i32_min i32_max.
+Definition i64_min := -9223372036854775808.
+Definition i64_max := 9223372036854775807.
+Definition read_i64 := read_int false i64_min i64_max.
 
 (* bind for parsers *)
 Definition parser (A : Type) := stream -> option (A * stream).
@@ -198,6 +202,20 @@ Record distribution := {
 Record matrix := { mx_cols : Z; mx_data : list Z }.
 Definition mx_rows (m : matrix) : Z := if mx_cols m =? 0 then 0 else zlen (mx_data m) / mx_cols m.
 
+(* The order in which the hand-written printers/parsers below stream their
+   fields (one list per class; save and load use the same one).  Proved equal to
+   the orders regenerated from the source in Serial/OrderProofs.v. *)
+Definition hash_order_model : list ftag := [T_d0; T_d1].
+Definition individual_order_model : list ftag := [T_age].
+Definition mep_order_model : list ftag := [T_rows; T_cols; T_opcode; T_arg; T_best_index; T_best_category].
+Definition vec_order_model : list ftag := [T_size; T_elem].
+Definition team_order_model : list ftag := [T_size].
+Definition population_order_model : list ftag := [T_layers; T_allowed; T_count].
+Definition summary_order_model : list ftag := [T_elapsed; T_mutations; T_crossovers; T_gen; T_last_imp].
+Definition distribution_order_model : list ftag :=
+  [T_count; T_mean; T_min; T_max; T_m2; T_nseen; T_key; T_val].
+Definition matrix_order_model : list ftag := [T_cols; T_rows; T_elem].
+
 Definition lres (T : Type) := (bool * T * stream)%type.
 Definition parser_of {T} (ld : stream -> T -> lres T) (dflt : T) : parser T :=
   fun s => let '(ok, t, s') := ld s dflt in if ok then Some (t, s') else None.
@@ -205,6 +223,15 @@ Definition parser_of {T} (ld : stream -> T -> lres T) (dflt : T) : parser T :=
 Section Oracles.
 Variable show17 : Z -> stream.
 Variable read_f : parser Z.
+
+(* operator>>(double&) as used by the loaders: the oracle, with the one fact
+   every extraction satisfies built in -- a successful extraction consumes at
+   least one byte (an answer of the oracle that does not is a failure) *)
+Definition rdf : parser Z :=
+  fun s => match read_f s with
+           | Some (x, s') => if (length s' <? length s)%nat then Some (x, s') else None
+           | None => None
+           end.
 
 (* -------------------------------------------------------------- hash_t --- *)
 Definition hash_save (h : hash) : stream :=
@@ -232,8 +259,8 @@ Fixpoint read_floats (fuel : nat) (s : stream) : list Z :=
   match fuel with
   | O => []
   | S f =>
-      match read_f s with
-      | Some (x, s') => if (length s' <? length s)%nat then x :: read_floats f s' else []
+      match rdf s with
+      | Some (x, s') => x :: read_floats f s'
       | None => []
       end
   end.
@@ -289,7 +316,7 @@ Definition gene_parse (ss : symset) : parser gene :=
       match decode ss op with
       | None => None
       | Some y =>
-          match (if is_param y then read_f s1 else Some (0, s1)) with
+          match (if is_param y then rdf s1 else Some (0, s1)) with
           | None => None
           | Some (par, s2) =>
               match rep read_u16 (sy_arity y) (Z.of_nat (sy_arity y)) s2 with
@@ -375,7 +402,7 @@ Definition ga_load := vec_load read_i32.
 (* empty(): i_mep: size() == 0;  i_ga / i_de: no parameters *)
 Definition mep_empty (m : mep) : bool := mep_rows m mod (u32_max + 1) =? 0.
 Definition vec_empty (v : vec_ind) : bool := match v_genome v with [] => true | _ => false end.
-Definition de_load := vec_load read_f.
+Definition de_load := vec_load rdf.
 
 (* --------------------------------------- containers over an individual --- *)
 Section Containers.
@@ -433,13 +460,58 @@ Definition pop_load (s : stream) (t : population I) : lres (population I) :=
       end
   end.
 
+(* The numeric tail of a summary is printed and parsed field by field in the
+   ORDER READ OFF THE SOURCE (Gen/SerialOrder.v, regenerated on every run):
+   summary_save_order for save, summary_load_order for load. *)
+Definition tail_get (x : summary I) (f : ftag) : Z :=
+  match f with
+  | T_elapsed => su_elapsed x
+  | T_mutations => su_mutations x
+  | T_crossovers => su_crossovers x
+  | T_gen => su_gen x
+  | _ => su_last_imp x
+  end.
+Definition tail_show (x : summary I) (f : ftag) : stream :=
+  match f with T_elapsed => show_i (tail_get x f) | _ => show_u (tail_get x f) end.
+Fixpoint tail_save (order : list ftag) (x : summary I) : stream :=
+  match order with
+  | [] => [10]
+  | [f] => tail_show x f ++ [10]
+  | f :: r => tail_show x f ++ [32] ++ tail_save r x
+  end.
+
 Definition summary_save (isempty : I -> bool) (x : summary I) : stream :=
   (if isempty (su_sol x) then [48; 10]
    else [49; 10] ++ isave (su_sol x) ++ fit_save (su_fit x) ++ show17 (su_acc x) ++ [10])
-  ++ show_i (su_elapsed x) ++ [32] ++ show_u (su_mutations x) ++ [32] ++ show_u (su_crossovers x)
-  ++ [32] ++ show_u (su_gen x) ++ [32] ++ show_u (su_last_imp x) ++ [10].
+  ++ tail_save summary_save_order x.
 
-Definition summary_load (s : stream) (t : summary I) : lres (summary I) :=
+(* reader of a tail field: by its C++ type *)
+Definition tail_reader (eread : parser Z) (f : ftag) : parser Z :=
+  match f with
+  | T_elapsed => eread
+  | T_mutations | T_crossovers => read_u64
+  | _ => read_u32
+  end.
+Definition ftag_eqb (a b : ftag) : bool :=
+  match a, b with
+  | T_elapsed, T_elapsed | T_mutations, T_mutations | T_crossovers, T_crossovers
+  | T_gen, T_gen | T_last_imp, T_last_imp => true
+  | _, _ => false
+  end.
+Definition upd (env : ftag -> Z) (f : ftag) (v : Z) : ftag -> Z :=
+  fun g => if ftag_eqb g f then v else env g.
+Fixpoint tail_load (eread : parser Z) (order : list ftag) (s : stream) (env : ftag -> Z)
+  : option ((ftag -> Z) * stream) :=
+  match order with
+  | [] => Some (env, s)
+  | f :: r =>
+      match tail_reader eread f s with
+      | None => None
+      | Some (v, s') => tail_load eread r s' (upd env f v)
+      end
+  end.
+
+Definition summary_load (eread : parser Z) (s : stream) (t : summary I) : lres (summary I) :=
   match read_u32 s with
   | None => (false, t, s)
   | Some (known, s1) =>
@@ -451,7 +523,7 @@ Definition summary_load (s : stream) (t : summary I) : lres (summary I) :=
                       match fit_load s2 [] with
                       | (false, _, _) => None
                       | (true, fit, s3) =>
-                          match read_f s3 with
+                          match rdf s3 with
                           | None => None
                           | Some (acc, s4) => Some ((sol, fit, acc), s4)
                           end
@@ -459,29 +531,14 @@ Definition summary_load (s : stream) (t : summary I) : lres (summary I) :=
                   end) with
       | None => (false, t, s1)
       | Some ((sol, fit, acc), s5) =>
-          match read_i32 s5 with
+          match tail_load eread summary_load_order s5 (fun _ => 0) with
           | None => (false, t, s5)
-          | Some (ms, s6) =>
-              match read_u64 s6 with
-              | None => (false, t, s6)
-              | Some (mu, s7) =>
-                  match read_u64 s7 with
-                  | None => (false, t, s7)
-                  | Some (cr, s8) =>
-                      match read_u32 s8 with
-                      | None => (false, t, s8)
-                      | Some (ge, s9) =>
-                          match read_u32 s9 with
-                          | None => (false, t, s9)
-                          | Some (li, s10) =>
-                              (* *this = tmp_summary *)
-                              (true, {| su_sol := sol; su_fit := fit; su_acc := acc;
-                                        su_elapsed := ms; su_mutations := mu;
-                                        su_crossovers := cr; su_gen := ge; su_last_imp := li |}, s10)
-                          end
-                      end
-                  end
-              end
+          | Some (env, s10) =>
+              (* *this = tmp_summary *)
+              (true, {| su_sol := sol; su_fit := fit; su_acc := acc;
+                        su_elapsed := env T_elapsed; su_mutations := env T_mutations;
+                        su_crossovers := env T_crossovers; su_gen := env T_gen;
+                        su_last_imp := env T_last_imp |}, s10)
           end
       end
   end.
@@ -610,6 +667,12 @@ Definition dist_save (d : distribution) : stream :=
   ++ show_u (zlen (d_seen d)) ++ [10]
   ++ flat_map (fun kv => show17 (fst kv) ++ [32] ++ show_u (snd kv) ++ [10]) (d_seen d).
 
+(* distribution::save returns false (and writes nothing) when a moment or a
+   key is not finite *)
+Definition dist_save_ok (d : distribution) : bool :=
+  finite_b (d_mean d) && finite_b (d_min d) && finite_b (d_max d) && finite_b (d_m2 d)
+  && forallb (fun kv => finite_b (fst kv)) (d_seen d).
+
 (* s[key] = val on the sorted association list that stands for std::map *)
 Fixpoint map_set (m : list (Z * Z)) (k v : Z) : list (Z * Z) :=
   match m with
@@ -622,7 +685,7 @@ Fixpoint map_set (m : list (Z * Z)) (k v : Z) : list (Z * Z) :=
 
 Definition kv_parse : parser (Z * Z) :=
   fun s =>
-  match read_f s with
+  match rdf s with
   | None => None
   | Some (k, s1) =>
       match read_u64 s1 with
@@ -635,16 +698,16 @@ Definition dist_load (s : stream) (t : distribution) : lres distribution :=
   match read_u64 s with
   | None => (false, t, s)
   | Some (c, s1) =>
-  match read_f s1 with
+  match rdf s1 with
   | None => (false, t, s1)
   | Some (m, s2) =>
-  match read_f s2 with
+  match rdf s2 with
   | None => (false, t, s2)
   | Some (mn, s3) =>
-  match read_f s3 with
+  match rdf s3 with
   | None => (false, t, s3)
   | Some (mx, s4) =>
-  match read_f s4 with
+  match rdf s4 with
   | None => (false, t, s4)
   | Some (m2, s5) =>
   match read_u64 s5 with
